@@ -31,6 +31,12 @@ S = z3.StringSort()
 CHRONO_NS = 262000 * 366 * 86400 * 10 ** 9
 
 
+def key_kind(ty):
+    """leading type name of a key type: `a::b::AggregateSignature<D>` -> AggregateSignature"""
+    m = re.match(r"^(?:\w+::)*(\w+)", ty.strip())
+    return m.group(1) if m else re.sub(r"\W+", "_", ty)[:40]
+
+
 def B(term):
     return Abs("bytes", term)
 
@@ -78,6 +84,13 @@ class Ctx:
         self.axioms.append(z3.And(d(t) == k, z3.Length(t) >= minlen))
         return t
 
+    def secs_nanos(self, st, t):
+        """(floor(t / 10^9), t mod 10^9) as functions of t with their defining linear fact (no div/mod for the solver)"""
+        q = z3.Function("seconds_of", z3.IntSort(), z3.IntSort())(t)
+        r = z3.Function("subsec_nanos_of", z3.IntSort(), z3.IntSort())(t)
+        st.assume(z3.And(t == q * 10 ** 9 + r, r >= 0, r < 10 ** 9))
+        return q, r
+
     def bytes_of(self, I, st, v):
         v = MM.deref_all(I, st, v)
         if isinstance(v, Abs) and v.sort == "bytes":
@@ -121,10 +134,10 @@ class Ctx:
             return MM.ret(st, EnumV("Option", z3.If(inr, 1, 0), {1: (t.term,)}))
         if re.search(r"DateTime::<(chrono::)?Utc>::timestamp$", f):
             t = MM.deref_all(I, st, args[0])
-            return MM.ret(st, t.term / 10 ** 9)  # floor division: seconds since the epoch (SMT-LIB div with a positive divisor = floor)
+            return MM.ret(st, self.secs_nanos(st, t.term)[0])
         if re.search(r"DateTime::<(chrono::)?Utc>::timestamp_subsec_nanos$", f):
             t = MM.deref_all(I, st, args[0])
-            return MM.ret(st, t.term % 10 ** 9)
+            return MM.ret(st, self.secs_nanos(st, t.term)[1])
         if re.search(r"ProtocolParameters::phi_f_fixed$", f):
             pp = MM.deref_all(I, st, args[0])
             names = [n for n, t in self.db.struct_fields("ProtocolParameters")]
@@ -137,7 +150,7 @@ class Ctx:
         m = re.search(r"ProtocolKey::<(.*)>::(to_json_hex|to_bytes_hex|to_bytes)$", f)
         if m:
             k = MM.deref_all(I, st, args[0])
-            kind = re.sub(r"\W+", "_", m.group(1))[:40] + "_" + m.group(2)
+            kind = key_kind(m.group(1)) + "_" + m.group(2)
             return MM.ret(st, EnumV("Result", 0, {0: (B(self.enc(st, kind, k.term)),)}))
         if re.match(r"^<.* as (Clone|ToOwned)>::(clone|to_owned)$", f):
             return MM.ret(st, MM.deref_all(I, st, args[0]))
@@ -242,7 +255,37 @@ def build_certificate(ctx, prefix, nsigners, pm_keys=PM_KEYS_DEFAULT):
     abstract = {r"String": string, r"DateTime<Utc>": time, r"ProtocolMessage": pmsg, r"f64": "f64",
                 r"ProtocolKey<.*>|ProtocolAggregateVerificationKey.*|ProtocolMultiSignature|GenesisEd25519Signature|Ed25519Signature|ProtocolAncillary.*Data": "key"}
     sb = symval.SymBuilder(ctx.db, I, abstract=abstract, vec_lengths=[(r".*\.signers", nsigners)])
-    return sb.make("Certificate", prefix), sb
+    cert = sb.make("Certificate", prefix)
+    # with default features the ancillary data enums of mithril-stm have no variant: the options are always None
+    for fld, ty in (("ancillary_prover_data", "AncillaryProverData"), ("ancillary_verifier_data", "AncillaryVerifierData")):
+        if inhabited_variants(ty) == 0 and "%s.%s.is_some" % (prefix, fld) in sb.vars:
+            sb.constraints.append(sb.vars["%s.%s.is_some" % (prefix, fld)] == 0)
+    return cert, sb
+
+
+def inhabited_variants(enum_name):
+    """number of variants of a mithril-stm enum that survive cfg stripping under the default features"""
+    import glob
+    for path in glob.glob(os.path.join(core.REPO, "mithril-stm", "src", "**", "*.rs"), recursive=True):
+        txt = open(path).read()
+        m = re.search(r"pub enum %s\s*\{(.*?)\n\}" % enum_name, txt, re.S)
+        if not m:
+            continue
+        n = 0
+        skip = False
+        for line in m.group(1).split("\n"):
+            t = line.strip()
+            if t.startswith("#[cfg(") and "feature" in t:
+                skip = True
+                continue
+            if not t or t.startswith(("//", "#[")):
+                continue
+            if re.match(r"^[A-Z]\w*", t):
+                if not skip:
+                    n += 1
+                skip = False
+        return n
+    return 1
 
 
 def liveness(name, vars_):
@@ -379,19 +422,22 @@ def run(tier, seed):
             c2 = [z3.substitute(c, *pairs) for c in sb.constraints]
             ob = rep.add(core.Obligation(name, "smt", desc, {"vccs": 1}))
             shape_facts = sig_shape(pairs)
-            r = smt.check(base + [phi2] + ax2 + c2 + [differ] + list(extra) + shape_facts, timeout_s=QUICK_DIRECT)
+            # 1. the direct query: string theory + injective uninterpreted encoders, no decomposition (answers unsat in milliseconds,
+            #    rarely produces models)
+            import time as _t
+            r = smt.check_status_forked(base + [phi2] + ax2 + c2 + [differ] + list(extra) + shape_facts, timeout_s=QUICK_DIRECT)
             ob.solver_s = r.seconds
-            model = r.model if r.status == "sat" else None
+            ob.bounds["direct_string_query"] = r.status
             if r.status == "unsat":
                 ob.status = "discharged"
                 return ob
+            model = None
             if model is None:
-                # the sequence solver does not produce models for these formulas: search with the aligned-atom decomposition
-                import time as _t
+                # 2. path-pair search with the aligned-atom decomposition (produces models; sound rewriting of hash equality)
                 t0 = _t.time()
                 m = counterexample_search(ctx, outs, pairs, list(sb.constraints) + c2 + [differ] + list(extra) + shape_facts, axioms, tmo)
                 ob.solver_s += _t.time() - t0
-                ob.bounds["decided_by"] = "aligned-atom decomposition (direct string query: %s)" % r.status
+                ob.bounds["decomposition"] = "no counterexample" if m is None else "gave up" if m == "unknown" else "counterexample"
                 if m is None:
                     ob.status = "discharged"
                     return ob
@@ -500,7 +546,53 @@ def run(tier, seed):
         rep.functions += sorted(set("%s -> %s" % (a, b) for a, b in ctx.I.calls_seen.items() if b.startswith("mir:")))
     except Unencodable as e:
         rep.inconcl("unencodable: %s" % e)
+    failures_pm, failures_rt = [], []
+    try:
+        pm_injectivity(Ctx(prog), prog, rep, tmo, failures_pm)
+    except Unencodable as e:
+        rep.inconcl("unencodable (protocol message digest): %s" % e)
+    try:
+        round_trip(prog, rep, tmo, failures_rt)
+    except Unencodable as e:
+        rep.inconcl("unencodable (round trip): %s" % e)
     # ---- replay ----------------------------------------------------------------------------------------------------
+    k = 100
+    seen_roles = set()
+    for ob, info in failures_pm:
+        if ob.role in seen_roles:
+            continue
+        seen_roles.add(ob.role)
+        k += 1
+        native = {}
+        reproduced = False
+        try:
+            rows = pm_candidates(info)
+            from checks.c17 import native_query
+            lines = native_query(["pm_hash " + json.dumps(r_).encode().hex() for r_ in rows])
+            lines = [l for l in lines if l.startswith(("equal-digests", "different-digests", "unsupported"))]
+            native["pm_hash"] = [{"pair": r_, "native": l} for r_, l in zip(rows, lines) if l.startswith("equal-digests different-messages")][:3] or lines[:6]
+            reproduced = any(l.startswith("equal-digests different-messages") for l in lines)
+        except Exception as e:
+            native["error"] = str(e)
+        path = core.write_replay("C04", k, {"property": "C04", "role": ob.role, "obligation": ob.name, "counterexample": ob.counterexample, "native_replay": native})
+        rep.violation(ob.role, "%s: two different well-formed protocol messages with the same digest: %s; native %s" % (ob.name, ob.counterexample, native), path, reproduced)
+        if reproduced:
+            rep.traces_validated += 1
+    for ob in failures_rt:
+        k += 1
+        native = {}
+        reproduced = False
+        try:
+            from checks.c17 import native_query
+            lines = [l for l in native_query(["cert_roundtrip"]) if l.startswith("roundtrip")]
+            native["cert_roundtrip"] = lines
+            reproduced = any("VIOLATED" in l for l in lines)
+        except Exception as e:
+            native["error"] = str(e)
+        path = core.write_replay("C04", k, {"property": "C04", "role": ob.role, "obligation": ob.name, "counterexample": ob.counterexample, "native_replay": native})
+        rep.violation(ob.role, "%s: %s; native %s" % (ob.name, ob.counterexample, native), path, reproduced)
+        if reproduced:
+            rep.traces_validated += 1
     k = 0
     for ob, spec in failures:
         k += 1
@@ -619,3 +711,373 @@ def counterexample_search(ctx, outs, pairs, extra, axioms, timeout_s):
             if r.status != "unsat":
                 unknown = True
     return "unknown" if unknown else None
+
+
+# ---- protocol message digest: the encoding fed to the hasher is uniquely decodable ----------------------------------------------
+WELL_FORMED = "(re.+ (re.union (re.range \"0\" \"9\") (re.range \"a\" \"f\")))"   # digests, JSON-hex keys, decimal numbers
+
+
+def cvc5_strings(script, timeout_s):
+    path = os.path.join(core.CACHE, "c04-%d.smt2" % os.getpid())
+    with open(path, "w") as f:
+        f.write(script)
+    try:
+        p = subprocess.run(["cvc5", "--lang", "smt2", "--strings-exp", "--produce-models", "--tlimit=%d" % (timeout_s * 1000), path],
+                           stdout=subprocess.PIPE, stderr=subprocess.STDOUT, text=True, timeout=timeout_s + 10)
+    except subprocess.TimeoutExpired:
+        return "unknown", {}
+    out = p.stdout.strip()
+    first = out.split("\n")[0].strip()
+    if first == "unsat":
+        return "unsat", {}
+    if "(error" in out:
+        return "error: " + out[:200], {}
+    vals = dict(re.findall(r"\((\w+) \"((?:[^\"]|\"\")*)\"\)", out))
+    return first, vals
+
+
+def smt_str(b):
+    return '"' + "".join(ch if 32 <= ord(ch) < 127 and ch != '"' and ch != "\\" else "\\u{%x}" % ord(ch) for ch in b) + '"'
+
+
+def template_expr(tpl, valname):
+    parts = [smt_str(a[1]) if a[0] == "lit" else valname for a in tpl]
+    if not parts:
+        return '""'
+    return parts[0] if len(parts) == 1 else "(str.++ %s)" % " ".join(parts)
+
+
+def template_regex(tpl):
+    parts = ["(str.to_re %s)" % smt_str(a[1]) if a[0] == "lit" else WELL_FORMED for a in tpl]
+    if not parts:
+        return '(str.to_re "")'
+    return parts[0] if len(parts) == 1 else "(re.++ %s)" % " ".join(parts)
+
+
+def pm_templates(ctx, prog, rep):
+    """per-key contribution of ProtocolMessage::compute_hash to the hasher, from symbolic runs on singleton messages,
+    validated on pairs and on the full key set (the loop treats every entry alike and visits keys in Ord order)"""
+    I = ctx.I
+    names = I.load_enum("ProtocolMessagePartKey")
+    names = list(names.keys()) if isinstance(names, dict) else list(names)
+    f = prog.find_one(r"entities/protocol_message\.rs.*>::compute_hash$")
+
+    def run(keys):
+        vals = {k: z3.String("part_value_" + k) for k in keys}
+        ents = tuple(Agg("tuple", None, (EnumV("ProtocolMessagePartKey", I.variant_index("ProtocolMessagePartKey", k), {}), B(vals[k]))) for k in keys)
+        fields = {"message_parts": Agg("btreemap", None, ents), "hash_scheme": EnumV("ProtocolMessageHashScheme", 0, {})}
+        pm = Agg("adt", "ProtocolMessage", tuple(fields[n] for n, t in ctx.db.struct_fields("ProtocolMessage")))
+        st = MI.State()
+        I.frame_counter += 1
+        fr = I.frame_counter
+        st.mem[(fr, 0)] = pm
+        outs = [o for o in I.call_fn(f, [Ref(fr, 0, ())], st)]
+        if len(outs) != 1 or outs[0].kind != "return":
+            raise Unencodable("ProtocolMessage::compute_hash on %s: %d paths" % (keys, len(outs)))
+        t = outs[0].value.term
+        # hex_encode(sha256(preimage))
+        if not (z3.is_app(t) and t.decl().name() == "hex_encode" and t.arg(0).decl().name() == "sha256"):
+            raise Unencodable("protocol message digest is not hex(sha256(..)): %s" % t.sexpr()[:80])
+        atoms = []
+        for a in _flatten(t.arg(0).arg(0)):
+            if z3.is_string_value(a):
+                atoms.append(("lit", a.as_string()))
+            else:
+                hit = [k for k in keys if z3.eq(a, vals[k])]
+                if not hit:
+                    raise Unencodable("unexpected hasher input %s" % a.sexpr()[:60])
+                atoms.append(("val", hit[0]))
+        return atoms
+    tpl = {}
+    for k in names:
+        tpl[k] = [("lit", a[1]) if a[0] == "lit" else ("val",) for a in run([k])]
+    order = sorted(names, key=lambda k: I.variant_index("ProtocolMessagePartKey", k))
+    ok = True
+    checked = 0
+    sets = [order] + [list(p) for p in itertools.combinations(order, 2)]
+    for ks in sets:
+        got = run(list(reversed(ks)))  # inserted in reverse: iteration must still be in key order
+        want = []
+        for k in ks:
+            want += [("lit", a[1]) if a[0] == "lit" else ("val", k) for a in tpl[k]]
+        # adjacent literals may have been fed separately or together: compare the flattened text with value markers
+        flat = lambda atoms: "".join(a[1] if a[0] == "lit" else "\x00%s\x00" % a[1] for a in atoms)
+        checked += 1
+        if flat(got) != flat(want):
+            ok = False
+    ob = rep.add(core.Obligation("c04_pm_digest_is_concatenation_of_entry_templates", "smt",
+                                 "ProtocolMessage::compute_hash = hex(sha256(concatenation, in key order, of each entry's template)) — templates taken from singleton messages, confirmed on every pair of keys and on the full key set inserted in reverse order",
+                                 {"vccs": checked, "keys": len(names)}))
+    ob.status = "discharged" if ok else "failed"
+    return tpl, order, ob
+
+
+def pm_injectivity(ctx, prog, rep, tmo, failures_pm):
+    old_unroll = ctx.I.unroll
+    ctx.I.unroll = 40
+    try:
+        tpl, order, ob0 = pm_templates(ctx, prog, rep)
+    finally:
+        ctx.I.unroll = old_unroll
+    if ob0.status != "discharged":
+        ob0.role = "c04-pm-digest-structure"
+        failures_pm.append((ob0, None))
+        return
+    rep.enumerated.append("protocol message part keys: %s" % order)
+    cont = "(re.union (str.to_re \"\") %s)" % " ".join("(re.++ %s re.all)" % template_regex(tpl[k]) for k in order)
+    head = "(set-logic QF_SLIA)\n(declare-fun v () String)\n(declare-fun w () String)\n(declare-fun r () String)\n(declare-fun s () String)\n" \
+           "(assert (str.in_re v %s))\n(assert (str.in_re w %s))\n(assert (str.in_re r %s))\n(assert (str.in_re s %s))\n" % (WELL_FORMED, WELL_FORMED, cont, cont)
+    # (a) same key first: the value boundary is unambiguous.  For templates of the form literal.value, Levi's lemma turns
+    #     x.v.r = x.w.s with (v, r) != (w, s) into: one value extends the other by a non-empty well-formed u, and u followed by a
+    #     continuation is again a non-empty continuation — emptiness of a regular-language intersection, decided by z3
+    standard = all(t and t[-1][0] == "val" and all(a_[0] == "lit" for a_ in t[:-1]) for t in tpl.values())
+    import time as _t
+    if standard:
+        hexre = z3.Plus(z3.Union(z3.Range("0", "9"), z3.Range("a", "f")))
+        ent = lambda k: z3.Concat(z3.Re("".join(a_[1] for a_ in tpl[k][:-1])), hexre, z3.Full(z3.ReSort(z3.StringSort())))
+        contp = z3.Union(*[ent(k) for k in order])
+        cont = z3.Union(z3.Re(""), contp)
+        x = z3.String("x")
+        ob = rep.add(core.Obligation("c04_pm_value_boundary_unambiguous", "smt",
+                                     "no string is both (a non-empty [0-9a-f]+ extension of a value, followed by a continuation) and (a non-empty continuation): equal encodings with the same first key carry the same value and remainder",
+                                     {"keys": len(order)}))
+        t0 = _t.time()
+        r = smt.check([z3.InRe(x, z3.Intersect(z3.Concat(hexre, cont), contp))], timeout_s=tmo)
+        ob.solver_s = _t.time() - t0
+        if r.status == "unsat":
+            ob.status = "discharged"
+        elif r.status == "sat":
+            ob.status = "failed"
+            ob.role = "c04-pm-digest-not-injective"
+            ob.counterexample = {"ambiguous_suffix": zstr_value(r.model, x)}
+            failures_pm.append((ob, ("boundary", None, {"x": zstr_value(r.model, x)})))
+        else:
+            ob.status = "inconclusive"
+            rep.inconcl("%s: %s" % (ob.name, r.reason))
+    for k in ([] if standard else order):
+        ob = rep.add(core.Obligation("c04_pm_decode_value_%s" % k, "smt",
+                                     "encodings that both start with the entry %s and are equal as byte strings carry the same value for it and the same remainder (values over [0-9a-f]+, remainder = empty or an entry followed by anything)" % k))
+        script = head + "(assert (= (str.++ %s r) (str.++ %s s)))\n(assert (or (distinct v w) (distinct r s)))\n(check-sat)\n(get-value (v w r s))\n" % (template_expr(tpl[k], "v"), template_expr(tpl[k], "w"))
+        t0 = _t.time()
+        st_, vals = cvc5_strings(script, tmo)
+        ob.solver_s = _t.time() - t0
+        if st_ == "unsat":
+            ob.status = "discharged"
+        elif st_ == "sat":
+            ob.status = "failed"
+            ob.role = "c04-pm-digest-not-injective"
+            ob.counterexample = {"first_key": k, "other_key": k, "model": vals}
+            failures_pm.append((ob, (k, k, vals)))
+        else:
+            ob.status = "inconclusive"
+            rep.inconcl("%s: %s" % (ob.name, st_))
+    # (b) different first keys: never equal
+    for k1, k2 in itertools.combinations(order, 2):
+        ob = rep.add(core.Obligation("c04_pm_decode_key_%s_vs_%s" % (k1, k2), "smt", "an encoding whose first entry is %s never equals one whose first entry is %s" % (k1, k2)))
+        script = head + "(assert (= (str.++ %s r) (str.++ %s s)))\n(check-sat)\n(get-value (v w r s))\n" % (template_expr(tpl[k1], "v"), template_expr(tpl[k2], "w"))
+        import time as _t
+        t0 = _t.time()
+        st_, vals = cvc5_strings(script, tmo)
+        ob.solver_s = _t.time() - t0
+        if st_ == "unsat":
+            ob.status = "discharged"
+        elif st_ == "sat":
+            ob.status = "failed"
+            ob.role = "c04-pm-digest-not-injective"
+            ob.counterexample = {"first_key": k1, "other_key": k2, "model": vals}
+            failures_pm.append((ob, (k1, k2, vals)))
+        else:
+            ob.status = "inconclusive"
+            rep.inconcl("%s: %s" % (ob.name, st_))
+    # (c) a non-empty encoding is not the empty one: every template contributes at least one byte (values are non-empty)
+    rep.notes.append("protocol message digest: injectivity on well-formed parts follows by induction on the number of entries from the decode lemmas (a), (b) and the template structure")
+
+
+def pm_candidates(info):
+    """pairs of well-formed messages to try natively: the solver's strings when they parse as entries, then a generic battery"""
+    hx = lambda t: t.encode().hex()
+    rows = []
+    keys = ["SnapshotDigest", "CardanoTransactionsMerkleRoot", "NextAggregateVerificationKey", "NextProtocolParameters", "CurrentEpoch", "LatestBlockNumber",
+            "CardanoStakeDistributionEpoch", "CardanoDatabaseMerkleRoot", "NextSnarkAggregateVerificationKey"]
+    if info and info[0] in keys + ["CardanoBlocksTransactionsMerkleRoot", "CardanoBlocksTransactionsBlockNumberOffset", "CardanoStakeDistributionMerkleRoot"] and info[2]:
+        k1, k2, vals = info
+        if vals.get("v") and vals.get("w") and not vals.get("r") and not vals.get("s"):
+            rows.append({"a": {k1: hx(vals["v"])}, "b": {k2: hx(vals["w"])}})
+    for k1, k2 in itertools.combinations(keys, 2):
+        rows.append({"a": {k1: hx("ab12")}, "b": {k2: hx("ab12")}})
+        rows.append({"a": {k1: hx("ab")}, "b": {k1: hx("a"), k2: hx("b")}})
+        rows.append({"a": {k1: hx("a"), k2: hx("bc")}, "b": {k1: hx("ab"), k2: hx("c")}})
+        rows.append({"a": {k1: hx("ab"), k2: hx("cd")}, "b": {k1: hx("cd"), k2: hx("ab")}})
+    return rows[:160]
+
+
+# ---- certificate -> API message -> certificate -------------------------------------------------------------------------------------
+def flatten_leaves(v, path=""):
+    """[(path, term)] of every solver term in a value"""
+    out = []
+    if isinstance(v, Abs):
+        out.append((path, v.term))
+    elif isinstance(v, Agg):
+        for i, f in enumerate(v.fields):
+            out += flatten_leaves(f, "%s.%d" % (path, i))
+    elif isinstance(v, EnumV):
+        out.append((path + ".discr", v.discr if z3.is_expr(v.discr) else z3.IntVal(v.discr)))
+        for k in sorted(v.payloads, key=str):
+            for i, f in enumerate(v.payloads[k]):
+                out += flatten_leaves(f, "%s.%s.%d" % (path, k, i))
+    elif z3.is_expr(v):
+        out.append((path, v))
+    return out
+
+
+class RoundTripCtx(Ctx):
+    """conversion code: encoders as in Ctx, plus the matching decoders (decode(encode(k)) = k, Ok on every encoding)"""
+
+    def __init__(self, prog):
+        super().__init__(prog)
+        self.I.models = [self.rt_models] + self.I.models
+        self.DECOK = {}
+
+    def rt_models(self, I, st, caller, func, args, argtys, dest_ty):
+        f = MM.strip_std_paths(func)
+        if re.match(r"^String::new$", f):
+            return MM.ret(st, B(z3.StringVal("")))
+        if re.match(r"^String::is_empty$|^str::is_empty$|core::str::<impl str>::is_empty$", f):
+            t = self.bytes_of(I, st, args[0])
+            return MM.ret(st, z3.Length(t) == 0)
+        m = re.search(r"ProtocolKey::<(.*)>::(to_json_hex|to_bytes_hex|to_bytes)$", f)
+        if m:
+            k = MM.deref_all(I, st, args[0])
+            kind = key_kind(m.group(1)) + "_" + m.group(2)
+            t = self.enc(st, kind, k.term)
+            st.assume(z3.Length(t) >= 1)
+            return MM.ret(st, EnumV("Result", 0, {0: (B(t),)}))
+        m = re.match(r"^<(?:\w+::)*ProtocolKey<(.*)> as TryFrom<String>>::try_from$", f) or re.match(r"^<String as TryInto<(?:\w+::)*ProtocolKey<(.*)>>>::try_into$", f)
+        if m:
+            return self.decode(I, st, m.group(1), args[0], None)
+        m = re.search(r"ProtocolKey::<(.*)>::(from_json_hex|from_bytes_hex)$", f)
+        if m:
+            return self.decode(I, st, m.group(1), args[0], m.group(2).replace("from", "to"))
+        return None
+
+    def decode(self, I, st, inner, sarg, how):
+        s_ = self.bytes_of(I, st, sarg)
+        base = key_kind(inner)
+        kinds = [k for k in self.ENC if k.startswith(base + "_") and (how is None or k.endswith(how))]
+        if len(kinds) != 1:
+            # which encoding the TryFrom<String> impl expects is read from the macro-generated impl: json hex unless the type says bytes
+            kinds = [k for k in kinds if k.endswith("to_json_hex")] or kinds
+        if not kinds:
+            raise Unencodable("decoder for %s without a matching encoder (encoders seen: %s)" % (inner, list(self.ENC)))
+        e, d = self.ENC[kinds[0]]
+        ok = z3.Function("decodes_" + kinds[0], S, z3.BoolSort())
+        st.trace = st.trace + (("decode", kinds[0], s_),)
+        return MM.ret(st, EnumV("Result", z3.If(ok(s_), 0, 1), {0: (Abs("key", d(s_)),), 1: (Opaque("decode error"),)}))
+
+
+def round_trip(prog, rep, tmo, failures_rt):
+    ctx = RoundTripCtx(prog)
+    I = ctx.I
+    cert, sb = build_certificate(ctx, "c", 1)
+    V = sb.vars
+    f_to = prog.find_one(r"messages/certificate\.rs.*>::try_from$", param_regex=r"\(_1: (\w+::)*Certificate\)")
+    f_back = prog.find_one(r"messages/certificate\.rs.*>::try_from$", param_regex=r"\(_1: (\w+::)*CertificateMessage\)")
+    st = MI.State()
+    for c in sb.constraints:
+        st.assume(c)
+    outs = I.call_fn(f_to, [cert], st)
+    npaths = 0
+    bad = []
+    lost = []
+    src = dict(flatten_leaves(cert, "cert"))
+    for o in outs:
+        if o.kind != "return":
+            raise Unencodable("Certificate -> CertificateMessage: %s %s" % (o.kind, o.msg))
+        if not (isinstance(o.value.discr, int) and o.value.discr == 0):
+            raise Unencodable("Certificate -> CertificateMessage: encoding failed on a path (encoders are assumed total)")
+        msg = o.value.payloads[0][0]
+        for o2 in I.call_fn(f_back, [msg], o.state):
+            if o2.kind != "return":
+                raise Unencodable("CertificateMessage -> Certificate: %s %s" % (o2.kind, o2.msg))
+            npaths += 1
+            # every decoder was applied to an encoding produced on this path: it succeeds and inverts the encoder
+            facts = []
+            for ev in o2.state.trace:
+                if ev[0] == "decode":
+                    e, d = ctx.ENC[ev[1]]
+                    facts.append(z3.Function("decodes_" + ev[1], S, z3.BoolSort())(ev[2]))
+            dv = o2.value.discr
+            okc = (dv == 0) if z3.is_expr(dv) else z3.BoolVal(dv == 0)
+            pc = list(o2.pc) + ctx.axioms + facts
+            if not z3.is_expr(dv) and dv != 0:
+                r = smt.check(pc, timeout_s=tmo)
+                if r.status != "unsat":
+                    lost.append(("conversion back fails", r.status))
+                continue
+            r = smt.check(pc + [z3.Not(okc)], timeout_s=tmo)
+            if r.status != "unsat":
+                lost.append(("conversion back fails", r.status))
+                continue
+            back = o2.value.payloads[0][0]
+            dst = dict(flatten_leaves(back, "cert"))
+            for pth, t in src.items():
+                # leaves of inactive enum variants / absent options carry no information
+                if pth not in dst:
+                    bad.append((pth, "missing after the round trip", pc))
+                    continue
+                if z3.eq(t, dst[pth]):
+                    continue
+                bad.append((pth, dst[pth], pc + [t != dst[pth]]))
+    ob = rep.add(core.Obligation("c04_roundtrip_certificate_message_certificate", "smt",
+                                 "Certificate -> CertificateMessage -> Certificate returns Ok with every field equal to the original (hence the same hash, signed message and signature), for every certificate; the JSON text layer is the identity",
+                                 {"paths": npaths}))
+    status = "discharged" if npaths else "inconclusive"
+    names = [n for n, t in ctx.db.struct_fields("Certificate")]
+    for pth, what, q in bad:
+        if isinstance(what, str):
+            r = smt.check(q + live_filter(pth, src), timeout_s=tmo)
+            if r.status == "unsat":
+                continue  # the leaf belongs to a variant that is not the active one on this path
+            status = "failed"
+            ob.counterexample = {"field_path": pth, "field": field_name(pth, names), "what": what}
+            break
+        # only live leaves count: compare under the path condition, restricted to the active variant by construction of the result
+        r = smt.check(q + live_filter(pth, src), timeout_s=tmo)
+        ob.solver_s += r.seconds
+        if r.status == "sat":
+            status = "failed"
+            ob.counterexample = {"field_path": pth, "field": field_name(pth, names), "original": str(r.model.eval(src[pth], model_completion=True))[:80], "after_round_trip": str(r.model.eval(what, model_completion=True))[:80]}
+            break
+        if r.status != "unsat":
+            status = "inconclusive"
+            rep.inconcl("round trip %s: %s" % (pth, r.reason))
+    if lost and status == "discharged":
+        status = "failed"
+        ob.counterexample = {"what": lost[0][0]}
+    ob.status = status
+    if status == "failed":
+        ob.role = "c04-roundtrip"
+        failures_rt.append(ob)
+    rep.functions += sorted(set("%s -> %s" % (a, b) for a, b in I.calls_seen.items() if b.startswith("mir:")))
+
+
+def field_name(pth, names):
+    segs = pth.split(".")
+    try:
+        return names[int(segs[1])]
+    except Exception:
+        return pth
+
+
+def live_filter(pth, src):
+    """conditions making the leaf at `pth` part of the value: the discriminants on the way select its variant"""
+    conds = []
+    segs = pth.split(".")
+    for i in range(1, len(segs) - 1):
+        pre = ".".join(segs[:i])
+        if pre + ".discr" in src and segs[i] not in ("discr",):
+            try:
+                conds.append(src[pre + ".discr"] == int(segs[i]))
+            except ValueError:
+                pass
+    return conds
